@@ -53,7 +53,10 @@ def _dt_strategy(tier, kind):
             # optionally with a time step in between
             "later": draw(st.lists(st.fixed_dictionaries({
                 "velocity": gen.vector_field_spec(dim, kinds=["zero", "constant", "spikes", "noise", "mixed"], max_mag_exp=12),
-                "step_first": st.booleans()}), min_size=0, max_size=3)),
+                "step_first": st.booleans(),
+                # a parameter sweep on the live object: the public attributes time_step() reads are changed before the query
+                "set_nu": st.one_of(st.none(), st.none(), gen.log_uniform(1e-6, 1e2)),
+                "set_cfl": st.one_of(st.none(), st.none(), gen.floats(0.01, 2.0, 32))}), min_size=0, max_size=3)),
         }
 
     return case()
@@ -92,6 +95,14 @@ def _dt_body(case, ctx):
             # advance the simulator (changes time and, for Navier-Stokes, recomputes the velocity) before the next query
             with ctx.repo_call("time_step"):
                 sim.time_step(dt=float(dt1f) * 0.5)
+        if rnd.get("set_nu") is not None:
+            sim.kinematic_viscosity = float(rnd["set_nu"])
+            case = dict(case, nu=float(rnd["set_nu"]))
+            ctx.note(labels=["viscosity_changed_on_live_simulator"])
+        if rnd.get("set_cfl") is not None:
+            sim.cfl = float(rnd["set_cfl"])
+            case = dict(case, cfl=float(rnd["set_cfl"]))
+            ctx.note(labels=["cfl_changed_on_live_simulator"])
         sim.velocity_field[...] = gen.build_vector_field(rnd["velocity"], shape, real_t)
         if case.get("tail_spike") is not None:
             c_, i_, e_ = case["tail_spike"]
